@@ -113,7 +113,7 @@ def mon_C14(s):
 
 
 def mon_C05(s):
-    if not any(o["op"] == "persist" for o in s["ops"]):
+    if not any(o["op"] == "persist" or o.get("persist_first") for o in s["ops"]):
         return []
     imp = core.Impl()
     out = []
@@ -121,6 +121,8 @@ def mon_C05(s):
     for i, o in enumerate(s["ops"]):
         if o["op"] == "persist":
             continue
+        if o.get("persist_first"):
+            o = {k: v for k, v in o.items() if k != "persist_first"}
         r = imp.play(o)
         a = json.loads(core.dumps(r))
         b = json.loads(core.dumps(s["replies"][i]))
